@@ -47,7 +47,8 @@ func ifByIndex(idx int) net.Interface {
 
 var chaddr = []byte{0x02, 0x11, 0x22, 0x33, 0x44, 0x55}
 
-func eval(r *ev.Run, c Case) {
+// request builds the datagram of a case and the plugin that shapes its reply.
+func request(c Case) []byte {
 	p := pkt.V4{Op: 1, HType: 1, HLen: byte(c.HLen), Xid: 0xfeedbeef, GI: ip4(c.GI), CI: ip4(c.CI)}
 	copy(p.CHAddr[:], chaddr)
 	if c.Bcast {
@@ -58,20 +59,34 @@ func eval(r *ev.Run, c Case) {
 		mt = 3
 	}
 	p.Opts = []pkt.Opt4{{Code: 53, Data: []byte{mt}}}
-	yi := net.ParseIP(c.YI).To4()
-	hs := []handler.Handler4{func(req, resp *dhcpv4.DHCPv4) (*dhcpv4.DHCPv4, bool) {
-		resp.YourIPAddr = yi
+	return p.Bytes()
+}
+
+// shaper returns a handler that shapes the reply according to the case *cur points to.
+func shaper(cur *Case) handler.Handler4 {
+	return func(req, resp *dhcpv4.DHCPv4) (*dhcpv4.DHCPv4, bool) {
+		resp.YourIPAddr = net.ParseIP(cur.YI).To4()
 		resp.ServerIPAddr = net.IPv4(192, 0, 2, 1).To4()
-		if c.Reply == "NAK" {
+		if cur.Reply == "NAK" {
 			resp.UpdateOption(dhcpv4.OptMessageType(dhcpv4.MessageTypeNak))
 		}
 		return resp, false
-	}}
+	}
+}
+
+func eval(r *ev.Run, c Case) {
 	var ifi net.Interface
 	if c.Bound != 0 {
 		ifi = ifByIndex(c.Bound)
 	}
-	out := srv.Run4(ifi, hs, p.Bytes(), c.Oob, &net.UDPAddr{IP: net.IPv4(10, 9, 9, 9), Port: 68})
+	cc := c
+	out := srv.Run4(ifi, []handler.Handler4{shaper(&cc)}, request(c), c.Oob, &net.UDPAddr{IP: net.IPv4(10, 9, 9, 9), Port: 68})
+	judge(r, c, out, "", c)
+}
+
+// judge compares what was emitted for case c with the cascade. hist prefixes the signature
+// for cases judged as part of a history; rc is the replay case.
+func judge(r *ev.Run, c Case, out srv.Out, hist string, rc interface{}) {
 	if out.Panic != "" {
 		r.Eval("panic")
 		return
@@ -99,9 +114,10 @@ func eval(r *ev.Run, c Case) {
 		wantIf = c.Oob
 	}
 	class := fmt.Sprintf("%s/pinned=%v/bound=%v/sent=%d/frames=%d", rule, pinned, c.Bound != 0, len(out.Sent), len(out.Frames))
-	defer func() { r.Eval(class); r.Sample(class, c) }()
+	class = hist + class
+	defer func() { r.Eval(class); r.Sample(class, rc) }()
 	bad := func(sig, what string) {
-		r.Violate("C15/"+rule+"/"+sig, fmt.Sprintf("%s (giaddr=%s ciaddr=%s bcast=%v reply=%s yiaddr=%s bound=%d oob=%d)", what, c.GI, c.CI, c.Bcast, c.Reply, c.YI, c.Bound, c.Oob), c)
+		r.Violate("C15/"+hist+rule+"/"+sig, fmt.Sprintf("%s (giaddr=%s ciaddr=%s bcast=%v reply=%s yiaddr=%s bound=%d oob=%d)", what, c.GI, c.CI, c.Bcast, c.Reply, c.YI, c.Bound, c.Oob), rc)
 	}
 	if out.Replies() > 1 {
 		bad("more-than-one-reply", fmt.Sprintf("%d datagrams/frames emitted", out.Replies()))
@@ -176,7 +192,7 @@ func run(r *ev.Run) {
 	if r.Quick() && len(idx) > 2 {
 		idx = idx[:2]
 	}
-	r.Rule(fmt.Sprintf("E3 complete decision table through the real HandleMsg4: giaddr x ciaddr in {0,routable,link-local,broadcast} x broadcast flag x reply{OFFER,ACK,NAK by plugin} x yiaddr{0,routable,link-local} x listener{unbound, bound to each of %d interfaces} x receiving interface index; reference = the RFC 2131 4.1 cascade as worded in the property. UDP replies observed at WriteTo, link-level replies as the serialised Ethernet frame. Class = cascade rule/pinned/bound/#sent/#frames.", len(idx)))
+	r.Rule(fmt.Sprintf("E3 complete decision table through the real HandleMsg4: giaddr x ciaddr in {0,routable,link-local,broadcast} x broadcast flag x reply{OFFER,ACK,NAK by plugin} x yiaddr{0,routable,link-local} x listener{unbound, bound to each of %d interfaces} x receiving interface index; reference = the RFC 2131 4.1 cascade as worded in the property. UDP replies observed at WriteTo, link-level replies as the serialised Ethernet frame. Plus histories: every ordered pair of 16 representative requests (one per cascade rule x two receiving interfaces) on ONE unbound listener and of 8 on one bound listener, both replies judged. Class = cascade rule/pinned/bound/#sent/#frames.", len(idx)))
 	r.Assume(fmt.Sprintf("host interfaces %v; 'unbound listener without control message' only for unpinned destinations (no defined answer otherwise, covered by C01); AF_PACKET syscalls after the frame is built are not executed", idx))
 	for _, gi := range addrs {
 		for _, ci := range addrs {
@@ -205,9 +221,87 @@ func run(r *ev.Run) {
 			}
 		}
 	}
+	// histories on one listener
+	var hidx []int
+	for _, i := range srv.Ifaces() {
+		if len(i.HardwareAddr) == 6 {
+			hidx = append(hidx, i.Index)
+		}
+	}
+	for _, i := range srv.Ifaces() {
+		if len(i.HardwareAddr) != 6 {
+			hidx = append(hidx, i.Index)
+		}
+	}
+	histories(r, hidx)
+}
+
+// PairCase is a history of two requests on ONE listener.
+type PairCase struct {
+	First  Case `json:"first"`
+	Second Case `json:"second"`
+}
+
+func evalPair(r *ev.Run, pc PairCase) {
+	var ifi net.Interface
+	if pc.First.Bound != 0 {
+		ifi = ifByIndex(pc.First.Bound)
+	}
+	var cur Case
+	l := srv.NewL4(ifi, []handler.Handler4{shaper(&cur)})
+	defer l.Close()
+	cur = pc.First
+	out1 := l.Handle(request(pc.First), pc.First.Oob)
+	judge(r, pc.First, out1, "history-1st/", pc)
+	cur = pc.Second
+	out2 := l.Handle(request(pc.Second), pc.Second.Oob)
+	judge(r, pc.Second, out2, "history-2nd/", pc)
+}
+
+// histories: every ordered pair of representative requests (one per cascade rule, from two
+// different receiving interfaces) on one unbound and one bound listener: what a listener
+// did for one datagram must not influence where the next reply goes.
+func histories(r *ev.Run, idx []int) {
+	if len(idx) < 2 {
+		return
+	}
+	reps := []Case{
+		{GI: "10.1.2.3", CI: "0.0.0.0", YI: "10.0.0.50", Reply: "OFFER", HLen: 6},
+		{GI: "255.255.255.255", CI: "0.0.0.0", YI: "10.0.0.50", Reply: "ACK", HLen: 6},
+		{GI: "0.0.0.0", CI: "10.1.2.3", YI: "0.0.0.0", Reply: "NAK", HLen: 6},
+		{GI: "0.0.0.0", CI: "10.1.2.3", YI: "10.0.0.50", Reply: "ACK", HLen: 6},
+		{GI: "0.0.0.0", CI: "169.254.7.7", YI: "10.0.0.50", Reply: "ACK", HLen: 6},
+		{GI: "0.0.0.0", CI: "0.0.0.0", YI: "10.0.0.50", Reply: "OFFER", Bcast: true, HLen: 6},
+		{GI: "0.0.0.0", CI: "0.0.0.0", YI: "10.0.0.50", Reply: "OFFER", HLen: 6},
+		{GI: "0.0.0.0", CI: "0.0.0.0", YI: "169.254.9.9", Reply: "ACK", HLen: 6},
+	}
+	var cases []Case
+	for _, c := range reps {
+		for _, oob := range idx[:2] {
+			c.Oob = oob
+			cases = append(cases, c)
+		}
+	}
+	for _, a := range cases {
+		for _, b := range cases {
+			evalPair(r, PairCase{a, b})
+		}
+	}
+	// bound listener: the receiving index equals the bound one
+	for _, a := range reps {
+		for _, b := range reps {
+			a.Bound, a.Oob, b.Bound, b.Oob = idx[1], idx[1], idx[1], idx[1]
+			evalPair(r, PairCase{a, b})
+		}
+	}
 }
 
 func replay(r *ev.Run, raw json.RawMessage) {
+	var pc PairCase
+	if json.Unmarshal(raw, &pc) == nil && pc.Second.Reply != "" {
+		evalPair(r, pc)
+		return
+	}
 	var c Case
 	if err := json.Unmarshal(raw, &c); err != nil {
 		r.Violate("C15/replay/bad-file", err.Error(), nil)
